@@ -205,12 +205,71 @@ def run_api(ctx, spec, cands):
             ctx.sample({'api_ops_head': ops[:25]})
 
 
+def run_late(ctx, spec, cands):
+    """logs attached late / with lost lines: the first line a tag carries may be unresolvable (delete_id of an id never seen,
+    a message on an object whose creation is missing).  Whatever happens to such a line, one tag stays ONE connection:
+    announced once, closed once at the end, and every message line shown for the tag carries that connection's name."""
+    rng = ctx.rng
+    for n in range(max(2, spec['streams'] // 2)):
+        k = rng.randint(2, 5)
+        st = streams.build(rng, cands, k=k, n_each=(15, 80), tagged=True, opts={'hot': rng.choice([0.3, 0.6])})
+        entries = list(st['entries'])
+        # drop a prefix of some connections, and make some connection start with a delete_id / a message on an unknown object
+        for ci in rng.sample(range(k), rng.randint(1, k)):
+            mine = [i for i, e in enumerate(entries) if e['ci'] == ci]
+            cut = rng.randint(1, max(1, len(mine) // 2))
+            drop = set(mine[:cut])
+            entries = [e for i, e in enumerate(entries) if i not in drop]
+            if rng.random() < 0.6:
+                first = next((i for i, e in enumerate(entries) if e['ci'] == ci), None)
+                if first is not None:
+                    tag = entries[first]['tag']
+                    at = '#' if st['dialect']['new'] else '@'
+                    t = entries[first]['rec']['t_us']
+                    line = printer.render_time(t, st['dialect']) + '<%d> wl_display%s1.delete_id(%d)' % (tag, at, rng.choice([3, 7, 4242]))
+                    entries.insert(first, {'tag': tag, 'ci': ci, 'line': line, 'rec': None})
+        if not entries:
+            continue
+        lines = [e['line'] for e in entries]
+        names = {}
+        for e in entries:
+            if e['ci'] not in names:
+                names[e['ci']] = streams.conn_name(len(names))
+        s = Session()
+        s.feed([l + '\n' for l in lines])
+        per = s.per_read()
+        case = {'lines': lines, 'late': True}
+        ctx.ev(len(lines))
+        ctx.count('late_streams')
+        ctx.sig(['late', h64(lines)])
+        new = [outline.parse_line(p) for kk, p in s.events if kk == 'out']
+        opened = [i['conn'] for i in new if i['kind'] == 'notice' and i['what'] == 'New']
+        closed = sorted(i['conn'] for i in new if i['kind'] == 'notice' and i['what'] == 'Closed')
+        want = [names[ci] for ci in names]
+        if opened != want or closed != sorted(want) or [c.name() for c in s.cm.connections()] != want:
+            ctx.violation('late-one-connection-per-tag', '%d tags in the stream (in order %r) but connections announced %r, closed %r, listed %r' % (
+                len(want), want, opened, closed, [c.name() for c in s.cm.connections()]), case)
+            continue
+        for i, e in enumerate(entries):
+            for kk, p in per.get(i, []):
+                it = outline.parse_line(p)
+                if kk == 'out' and it['kind'] == 'msg' and it['conn'] not in (names[e['ci']], ''):
+                    ctx.violation('late-wrong-connection', 'line %d of tag <%s> (connection %s) shown as %r' % (i, e['tag'], names[e['ci']], it['text'][:160]), dict(case, first_bad_line=i))
+                    break
+        for ci, name in names.items():
+            c = [x for x in s.cm.connections() if x.name() == name][0]
+            if len(c.messages()) != sum(1 for e in entries if e['ci'] == ci):
+                ctx.violation('late-message-count', 'connection %s recorded %d messages, %d lines carry its tag' % (name, len(c.messages()), sum(1 for e in entries if e['ci'] == ci)), case)
+                break
+
+
 def run(ctx, spec):
     env.setup()
     cands = wlxml.shipped(env.REPO)
     if 'api_ops' in spec:
         return
     run_streams(ctx, spec, cands)
+    run_late(ctx, spec, cands)
     run_api(ctx, spec, cands)
     for k, v in contracts.COUNTS.items():
         ctx.count('contract_' + k, v)
